@@ -15,7 +15,9 @@
 (***************************************************************************)
 EXTENDS Naturals, Sequences, FiniteSets, TLC
 
-Forms == {"data1", "data2", "data4", "data8", "sdata", "udata", "block1"}
+\* (a block holds 4 bytes -- "block1" -- or 1, 2, 8: the code reads a block of a plain size as the data form of that size)
+Forms == {"data1", "data2", "data4", "data8", "sdata", "udata", "block1", "block1x1", "block1x2", "block1x8"}
+IsBlock(f) == f \in {"block1", "block1x1", "block1x2", "block1x8"}
 Holders == {"var", "enr"}
 \* type chain shapes for a variable; for an enumerator the chain starts at its enumeration type
 \* "deep-...": twelve typedef / const / volatile levels -- the statement says "following typedef/cv/enumeration
@@ -49,7 +51,7 @@ Documented(d) ==
     IF d.form = "sdata" THEN "signed"
     ELSE IF d.form = "udata" THEN "unsigned"
     \* a block as the value of a pointer is not interpreted (an error is reported)
-    ELSE IF d.ty \in {"pointer", "ptrmember"} THEN (IF d.form = "block1" THEN "any" ELSE "address")
+    ELSE IF d.ty \in {"pointer", "ptrmember"} THEN (IF IsBlock(d.form) THEN "any" ELSE "address")
     ELSE IF ReachesBase(d.ty) THEN ByEnc(d.enc)
     \* an enumeration without underlying type: neither the form nor a type encoding decides
     ELSE "any"
@@ -61,7 +63,7 @@ Code(d) ==
     ELSE IF d.form = "udata" THEN "unsigned"
     ELSE \* handle_at_dependent_value, DW_AT_const_value
          IF d.holder = "enr" /\ d.ty = "enum-untyped" THEN "unsigned"     \* "doesn't have DW_AT_type": atval_unsigned
-         ELSE IF d.ty \in {"pointer", "ptrmember"} THEN (IF d.form = "block1" THEN "any" ELSE "address")
+         ELSE IF d.ty \in {"pointer", "ptrmember"} THEN (IF IsBlock(d.form) THEN "any" ELSE "address")
          ELSE IF d.ty \in {"none", "struct"} THEN "any"                   \* falls through to block / error
          ELSE IF ReachesBase(d.ty) THEN (IF d.enc = "float" THEN "any" ELSE ByEnc(d.enc))
          ELSE \* variable of an untyped enumeration: forms of its enumerators
